@@ -1,12 +1,12 @@
 // go2coq locks, third part: the natives and the locks that are copied.
 //
-//   * gen_natives: the table of native functions that the engine binds into its quasigo environment -- (qualifier, name,
+//   - gen_natives: the table of native functions that the engine binds into its quasigo environment -- (qualifier, name,
 //     implementing function). Natives are bound ONCE per engine (method values of the struct literals in initEnv, the
 //     functions the stdlib packages register in ImportAll) and are shared by all runs: the struct types behind the method
 //     values (gen_native_impls) are Load-time objects, roots of the Load-time object graph of locks_loadtime.go;
-//   * the packages that register natives (ruleguard/quasigo/stdlib/...) are found through the imports of package
+//   - the packages that register natives (ruleguard/quasigo/stdlib/...) are found through the imports of package
 //     ruleguard and scanned like the others (their natives are exported functions: run roots);
-//   * gen_lock_copies: every place where a value that CONTAINS a lock (sync.Mutex, RWMutex, Once, WaitGroup, Cond, Pool,
+//   - gen_lock_copies: every place where a value that CONTAINS a lock (sync.Mutex, RWMutex, Once, WaitGroup, Cond, Pool,
 //     Map, sync/atomic types, any type with pointer-receiver Lock and Unlock methods) is copied: a value receiver or
 //     parameter of such a type, an assignment / composite-literal element / argument / result / range variable that copies
 //     such a value. A copied mutex locks nothing (go vet's copylocks; the test suite runs with -vet=off).
